@@ -236,3 +236,216 @@ Proof.
   - rewrite P2, P1, P, H1. rewrite !Z.shiftl_mul_pow2 by lia. lia.
   - rewrite D2, D1, D. apply dec_read_add; lia.
 Qed.
+
+(* ---- the tables built at open are never modified ------------------------------------ *)
+
+Definition same_tables (s s' : vfs) : Prop := v_links s' = v_links s /\ v_pages s' = v_pages s.
+
+Lemma st_refl s : same_tables s s. Proof. split; reflexivity. Qed.
+Lemma st_trans a b c : same_tables a b -> same_tables b c -> same_tables a c.
+Proof. intros [H1 H2] [H3 H4]. split; congruence. Qed.
+
+Ltac st_set :=
+  match goal with
+  | |- same_tables ?a (set_q ?b _ _ _) => apply (st_trans a b); [|split; reflexivity]
+  | |- same_tables ?a (set_rem ?b _) => apply (st_trans a b); [|split; reflexivity]
+  | |- same_tables ?a (set_rs ?b _) => apply (st_trans a b); [|split; reflexivity]
+  | |- same_tables ?a (set_pcm ?b _) => apply (st_trans a b); [|split; reflexivity]
+  | |- same_tables ?a (set_dec ?b _) => apply (st_trans a b); [|split; reflexivity]
+  | |- same_tables ?a (set_link ?b _ _) => apply (st_trans a b); [|split; reflexivity]
+  | |- same_tables ?a (set_hs ?b _) => apply (st_trans a b); [|split; reflexivity]
+  | |- same_tables ?a ?a => apply st_refl
+  end.
+
+Lemma st_os_reset s : same_tables s (os_reset s). Proof. unfold os_reset. repeat st_set. Qed.
+Lemma st_os_pagein s pg : same_tables s (os_pagein s pg).
+Proof.
+  unfold os_pagein. destruct (negb (pg_serial pg =? v_serial s)); [apply st_refl|].
+  destruct (v_fresh s && pg_cont pg); [destruct (pg_pkts pg)|]; repeat st_set.
+Qed.
+Lemma st_decode_clear s : same_tables s (decode_clear s). Proof. unfold decode_clear. repeat st_set. Qed.
+Lemma st_make_ready s : same_tables s (make_ready s).
+Proof. unfold make_ready. destruct (v_rs s =? STREAMSET); repeat st_set. Qed.
+Lemma st_process_audio s p w : same_tables s (process_audio s p w).
+Proof.
+  unfold process_audio. destruct (dec_blockin _ _ _) as [rc d].
+  destruct (negb (pk_gran p =? -1) && negb (pk_eos p)); repeat st_set.
+Qed.
+
+Ltac st_step :=
+  match goal with
+  | |- same_tables ?a (os_pagein ?b _) => apply (st_trans a b); [|apply st_os_pagein]
+  | |- same_tables ?a (os_reset ?b) => apply (st_trans a b); [|apply st_os_reset]
+  | |- same_tables ?a (decode_clear ?b) => apply (st_trans a b); [|apply st_decode_clear]
+  | |- same_tables ?a (make_ready ?b) => apply (st_trans a b); [|apply st_make_ready]
+  | |- same_tables ?a (process_audio ?b _ _) => apply (st_trans a b); [|apply st_process_audio]
+  | |- same_tables ?a (set_q ?b _ _ _) => apply (st_trans a b); [|split; reflexivity]
+  | |- same_tables ?a (set_rem ?b _) => apply (st_trans a b); [|split; reflexivity]
+  | |- same_tables ?a (set_rs ?b _) => apply (st_trans a b); [|split; reflexivity]
+  | |- same_tables ?a (set_pcm ?b _) => apply (st_trans a b); [|split; reflexivity]
+  | |- same_tables ?a (set_dec ?b _) => apply (st_trans a b); [|split; reflexivity]
+  | |- same_tables ?a (set_link ?b _ _) => apply (st_trans a b); [|split; reflexivity]
+  | |- same_tables ?a (set_hs ?b _) => apply (st_trans a b); [|split; reflexivity]
+  | |- same_tables ?a ?a => apply st_refl
+  end.
+
+Lemma st_fetch fuel : forall s, same_tables s (snd (fetch fuel s)).
+Proof.
+  induction fuel as [|f IH]; intros s; cbn [fetch]; [apply st_refl|].
+  pose proof (st_make_ready s) as Hm. set (s0 := make_ready s) in *.
+  apply (st_trans s s0); [exact Hm|]. clear Hm.
+  destruct ((v_rs s0 =? INITSET) && match v_q s0 with [] => false | _ => true end).
+  - destruct (v_q s0) as [|p q']; [apply st_refl|].
+    destruct (pk_W p) as [w|]; cbn [snd].
+    + repeat st_step.
+    + eapply st_trans; [|apply IH]. repeat st_step.
+  - destruct (v_rem s0) as [|pg rem']; [apply st_refl|].
+    set (s1 := set_rem s0 rem').
+    assert (same_tables s0 s1) as H1 by (split; reflexivity).
+    apply (st_trans s0 s1); [exact H1|].
+    destruct ((v_rs s1 =? INITSET) && negb (v_serial s1 =? pg_serial pg)).
+    + destruct (pg_bos pg).
+      * destruct (find_link (v_links (decode_clear s1)) (pg_serial pg) 0).
+        -- eapply st_trans; [|apply IH]. repeat st_step.
+        -- eapply st_trans; [|apply IH]. repeat st_step.
+      * apply IH.
+    + destruct (v_rs s1 <? STREAMSET).
+      * destruct (find_link (v_links s1) (pg_serial pg) 0).
+        -- eapply st_trans; [|apply IH]. repeat st_step.
+        -- apply IH.
+      * eapply st_trans; [|apply IH]. repeat st_step.
+Qed.
+
+Lemma st_read_float fuel : forall s len, same_tables s (snd (read_float fuel s len)).
+Proof.
+  induction fuel as [|f IH]; intros s len; cbn [read_float]; [apply st_refl|].
+  destruct (negb ((if v_rs s =? INITSET then dec_pcmout (v_dec s) else 0) =? 0)).
+  - destruct (dec_read _ _) as [rc d]. cbn [snd]. repeat st_step.
+  - pose proof (st_fetch (fetch_fuel s) s) as Hf.
+    destruct (fetch (fetch_fuel s) s) as [rc s1]. cbn [snd] in Hf.
+    destruct (rc =? OV_EOF_); [exact Hf|]. destruct (rc <=? 0); [exact Hf|].
+    eapply st_trans; [exact Hf|apply IH].
+Qed.
+
+Lemma st_raw_scan fuel : forall s r, same_tables s (raw_scan fuel s r).
+Proof.
+  induction fuel as [|f IH]; intros s r; cbn [raw_scan]; [repeat st_step|].
+  set (take := if negb (r_last r =? 0) then set_pcm s (-1) else _).
+  assert (same_tables s take) as Ht.
+  { unfold take. destruct (negb (r_last r =? 0)); [repeat st_step|].
+    destruct (v_rem s) as [|pg rem']; [repeat st_step|].
+    set (s1 := set_rem s rem').
+    set (s2 := if (v_rs s1 >=? STREAMSET) && negb (v_serial s1 =? pg_serial pg) && pg_bos pg then decode_clear s1 else s1).
+    assert (same_tables s s2) as H2.
+    { unfold s2. destruct (_ && _ && _); unfold s1; repeat st_step. }
+    destruct (v_rs s2 <? STREAMSET).
+    - destruct (find_link (v_links s2) (pg_serial pg) 0).
+      + eapply st_trans; [|apply IH]. eapply st_trans; [exact H2|]. repeat st_step.
+      + eapply st_trans; [exact H2|apply IH].
+    - eapply st_trans; [|apply IH]. eapply st_trans; [exact H2|]. repeat st_step. }
+  destruct (v_rs s >=? STREAMSET); [|exact Ht].
+  destruct (r_wq r) as [|p wq']; [exact Ht|].
+  destruct (pk_W p) as [w|].
+  - destruct (r_lastflag r && negb (r_firstflag r)).
+    + destruct (negb (pk_gran p =? -1)); [repeat st_step|].
+      eapply st_trans; [|apply IH]. repeat st_step.
+    + destruct (negb (pk_gran p =? -1)); [repeat st_step|apply IH].
+  - destruct (negb (pk_gran p =? -1)); [repeat st_step|].
+    eapply st_trans; [|apply IH]. repeat st_step.
+Qed.
+
+Lemma st_raw_seek s pos : same_tables s (snd (raw_seek s pos)).
+Proof.
+  unfold raw_seek. destruct (v_rs s <? OPENED); [apply st_refl|].
+  destruct ((pos <? 0) || (pos >? file_end s)); [apply st_refl|]. cbn [snd].
+  eapply st_trans; [|apply st_raw_scan].
+  destruct ((v_rs s >=? STREAMSET) && _); repeat st_step.
+Qed.
+
+Lemma st_enter_link s link : same_tables s (enter_link s link).
+Proof. unfold enter_link. destruct (negb (link =? v_link s) || (v_rs s <? STREAMSET)); repeat st_step. Qed.
+
+Lemma st_pcm_seek_page s pos : same_tables s (snd (pcm_seek_page s pos)).
+Proof.
+  unfold pcm_seek_page. destruct (v_rs s <? OPENED); [apply st_refl|].
+  destruct ((pos <? 0) || (pos >? pcm_total s)); [apply st_refl|].
+  destruct (link_of_pos _ _ _ _) as [link total].
+  destruct (best_page _ _ _ None) as [[|pg rem']|].
+  - apply st_refl.
+  - set (s1 := enter_link (set_pcm (set_rem s rem') (-1)) link).
+    assert (same_tables s s1) as H1.
+    { unfold s1. eapply st_trans; [|apply st_enter_link]. repeat st_step. }
+    set (s2 := os_pagein (os_reset s1) pg).
+    assert (same_tables s s2) as H2 by (unfold s2; eapply st_trans; [exact H1|]; repeat st_step).
+    destruct (drop_to_gran (v_q s2) 0) as [[[q' n] g]|].
+    + match goal with |- context [if ?c then _ else _] => destruct c end; cbn [snd];
+        (eapply st_trans; [exact H2|]); repeat st_step.
+    + destruct (rewind_page _ _); cbn [snd]; [|exact H2].
+      eapply st_trans; [exact H2|apply st_raw_seek].
+  - destruct (pages_from (v_pages s) _) as [|pg rem']; cbn [snd]; [repeat st_step|].
+    destruct (pg_serial pg =? _); cbn [snd]; [|repeat st_step].
+    set (s1 := enter_link (set_pcm s total) link).
+    assert (same_tables s s1) as H1.
+    { unfold s1. eapply st_trans; [|apply st_enter_link]. repeat st_step. }
+    match goal with |- context [if ?c then _ else _] => destruct c end; cbn [snd];
+      (eapply st_trans; [exact H1|]); repeat st_step.
+Qed.
+
+Lemma st_seek_discard fuel : forall s pos lb, same_tables s (seek_discard fuel s pos lb).
+Proof.
+  induction fuel as [|f IH]; intros s pos lb; cbn [seek_discard]; [repeat st_step|].
+  destruct (v_q s) as [|p q'].
+  - destruct (v_rem s) as [|pg rem']; [apply st_refl|].
+    set (s1 := set_rem s rem').
+    set (s2 := if pg_bos pg then decode_clear s1 else s1).
+    assert (same_tables s s2) as H2 by (unfold s2, s1; destruct (pg_bos pg); repeat st_step).
+    destruct (v_rs s2 <? STREAMSET).
+    + destruct (find_link (v_links s2) (pg_serial pg) 0).
+      * eapply st_trans; [|apply IH]. eapply st_trans; [exact H2|]. repeat st_step.
+      * eapply st_trans; [exact H2|apply IH].
+    + eapply st_trans; [|apply IH]. eapply st_trans; [exact H2|]. repeat st_step.
+  - destruct (pk_W p) as [w|].
+    + set (s1 := if negb (lb =? 0) then _ else s).
+      assert (same_tables s s1) as H1 by (unfold s1; destruct (negb (lb =? 0)); repeat st_step).
+      destruct (_ >=? pos); [exact H1|].
+      destruct (dec_blockin _ _ _) as [rc d].
+      eapply st_trans; [|apply IH].
+      destruct (pk_gran p >? -1); (eapply st_trans; [exact H1|]); repeat st_step.
+    + eapply st_trans; [|apply IH]. repeat st_step.
+Qed.
+
+Lemma st_seek_skip fuel : forall s pos, same_tables s (seek_skip fuel s pos).
+Proof.
+  induction fuel as [|f IH]; intros s pos; cbn [seek_skip]; [repeat st_step|].
+  destruct (v_pcm s <? _); [|apply st_refl].
+  destruct (_ <=? 0); [apply st_refl|].
+  destruct (dec_read _ _) as [rc d].
+  match goal with |- context [if ?c then _ else _] => destruct c end.
+  - set (s1 := set_pcm (set_dec s d) _).
+    assert (same_tables s s1) as H1 by (unfold s1; repeat st_step).
+    pose proof (st_fetch (fetch_fuel s1) s1) as Hf.
+    destruct (fetch (fetch_fuel s1) s1) as [rc2 s2]. cbn [snd] in Hf.
+    destruct (rc2 <=? 0); (eapply st_trans; [|apply IH]); (eapply st_trans; [exact H1|]); [|exact Hf].
+    eapply st_trans; [exact Hf|]. repeat st_step.
+  - eapply st_trans; [|apply IH]. repeat st_step.
+Qed.
+
+Lemma st_pcm_seek s pos : same_tables s (snd (pcm_seek s pos)).
+Proof.
+  unfold pcm_seek. pose proof (st_pcm_seek_page s pos) as H.
+  destruct (pcm_seek_page s pos) as [rc s1]. cbn [snd] in H.
+  destruct (rc <? 0); [exact H|]. cbn [snd].
+  eapply st_trans; [|apply st_seek_skip]. eapply st_trans; [|apply st_seek_discard].
+  eapply st_trans; [exact H|apply st_make_ready].
+Qed.
+
+Lemma st_halfrate s flag : same_tables s (snd (halfrate s flag)).
+Proof.
+  unfold halfrate. destruct (flag && _); [apply st_refl|].
+  destruct (v_rs _ >? STREAMSET); cbn [snd]; [|repeat st_step].
+  destruct (v_pcm _ >=? 0); cbn [snd]; [|repeat st_step].
+  eapply st_trans; [|apply st_pcm_seek]. repeat st_step.
+Qed.
+
+Lemma halfrate_total s flag : pcm_total (snd (halfrate s flag)) = pcm_total s.
+Proof. unfold pcm_total. destruct (st_halfrate s flag) as [-> _]. reflexivity. Qed.
